@@ -2,6 +2,7 @@
   C04 — No wedge. Property theorems only (helper lemmas: FileD/Lemmas/Pool.lean, Lemmas/Stream.lean).
 -/
 import FileD.Lemmas.Pool
+import FileD.Lemmas.Stream
 namespace FileD.PropsC04
 open FileD FileD.Pool
 
@@ -76,5 +77,124 @@ theorem lowmem_unfixed_wedged_forever (k : Nat) :
 
 example : TS.run (LM.step? (lmUnfixed 1)) (LM.init 2) lostWakeup = some wedged :=
   lostWakeup_reaches_wedged _ rfl
+
+/-! ## streams (pipeline/stream.go, streamer.go) -/
+section streams
+open FileD.Stream
+
+/-- **charged_exact**: in every reachable state of the streamer model (every interleaving of
+    put / pop / attach / get / leave / commit / time-out of any number of processors and streams),
+    outside a running critical section, a stream with pending events that has no owner and is not
+    in the pop→attach window is in `charged` exactly once; an attached or empty stream is not in it. -/
+theorem charged_exact (ns np : Nat) (st : St) (s : Nat) (x : S1)
+    (hr : TS.Reachable step? (init ns np) st) (hx : st.streams[s]? = some x) (hp : x.pend = .none) :
+    (x.q ≠ [] → x.attached = false → x.popper = none → st.charged.count s = 1) ∧
+    (x.attached = true ∨ x.q = [] → st.charged.count s = 0) := by
+  have inv := (ginv_reachable ns np st hr).str s x hx
+  constructor
+  · intro hq ha hpop
+    have := inv.ne hq
+    simpa [tokens, Stream.b2n, ha, hpop, hp] using this
+  · intro h
+    rcases h with ha | hq
+    · have := inv.one
+      simp [tokens, Stream.b2n, ha] at this; omega
+    · exact (inv.em hq).1
+
+/-- **single_owner**: a stream is in at most one of: `charged`, the pop→attach window, attached;
+    an active owner exists exactly while it is attached and not detaching. -/
+theorem single_owner (ns np : Nat) (st : St) (s : Nat) (x : S1)
+    (hr : TS.Reachable step? (init ns np) st) (hx : st.streams[s]? = some x) :
+    st.charged.count s + Stream.b2n x.popper.isSome + Stream.b2n x.attached ≤ 1 ∧
+    (x.owner.isSome = (x.attached && !x.detaching)) ∧ (x.detaching = true → x.attached = true) := by
+  have inv := (ginv_reachable ns np st hr).str s x hx
+  refine ⟨?_, inv.own, inv.det⟩
+  have := inv.one
+  simp only [tokens] at this; omega
+
+/-- ownership is released (tryDetach succeeds) only when every taken event is committed -/
+theorem detach_only_when_caught_up (ns np : Nat) (st st' : St) (s : Nat) (x : S1)
+    (hr : TS.Reachable step? (init ns np) st) (hx : st.streams[s]? = some x)
+    (hs : step? st (.detach s) = some st') : x.away = x.commit := by
+  have inv := (ginv_reachable ns np st hr).str s x hx
+  simp only [step?, hx] at hs
+  split at hs
+  · rename_i hp; exact (inv.pd hp).2.2
+  · simp at hs
+
+/-- the Panicf calls of attach / get / leave / blockGet are unreachable -/
+theorem stream_never_panics (ns np : Nat) (st : St) (hr : TS.Reachable step? (init ns np) st) :
+    st.panicked = false := (ginv_reachable ns np st hr).np
+
+/-- **no_sleeping_proc_with_work**: whenever a processor sleeps in joinStream un-notified, every
+    entry of `charged` is matched by a processor that was signalled and has not yet re-checked;
+    and a `makeCharged` with sleepers present notifies the oldest of them. -/
+theorem no_sleeping_proc_with_work (ns np : Nat) (st : St) (hr : TS.Reachable step? (init ns np) st) :
+    (st.parkedQ ≠ [] → st.charged.length ≤ st.procs.countP isWoken) ∧
+    (∀ p, p ∈ st.parkedQ → st.procs[p]? = some .parked) := by
+  have inv := ginv_reachable ns np st hr
+  exact ⟨inv.jn, inv.pq⟩
+
+theorem charge_signals (ns np : Nat) (st st' : St) (s p : Nat) (rest : List Nat)
+    (hr : TS.Reachable step? (init ns np) st) (hq : st.parkedQ = p :: rest)
+    (hs : step? st (.charge s) = some st') :
+    st'.procs[p]? = some .woken ∧ st'.parkedQ = rest ∧ st'.charged = st.charged ++ [s] := by
+  have inv := ginv_reachable ns np st hr
+  have hpp : st.procs[p]? = some .parked := inv.pq p (by simp [hq])
+  simp only [step?] at hs
+  split at hs
+  · split at hs
+    · simp only [hq] at hs
+      simp at hs; subst hs
+      exact ⟨by simpa [setP, setS] using FileD.Pool.get_set_self st.procs p .parked .woken hpp, rfl, rfl⟩
+    · simp at hs
+  · simp at hs
+
+/-- the owner never sleeps in blockGet while its stream has events -/
+theorem no_blocked_owner_with_work (ns np : Nat) (st : St) (s : Nat) (x : S1)
+    (hr : TS.Reachable step? (init ns np) st) (hx : st.streams[s]? = some x)
+    (hw : x.waiting = true) : x.q = [] :=
+  ((ginv_reachable ns np st hr).str s x hx).wt hw |>.1
+
+/-- **blocked_gets_timeout** (logical tick): a stream whose owner `p` sleeps in blockGet, with every
+    taken event committed, receives a time-out event at the streamer heartbeat (`tryUnblock`), the
+    owner is signalled, and its `get` of that event is enabled and does not panic. -/
+theorem blocked_gets_timeout (ns np : Nat) (st : St) (s p : Nat) (x : S1)
+    (hr : TS.Reachable step? (init ns np) st) (hx : st.streams[s]? = some x)
+    (hw : x.waiting = true) (hp : x.pend = .none) (hac : x.away = x.commit) (ho : x.owner = some p) :
+    ∃ st' st'', step? st (.timeout s) = some st' ∧ st'.toPanic = st.toPanic ∧
+      step? st' (.get p s 0 x.commit true) = some st'' ∧ st''.panicked = false ∧
+      (∃ x'', st''.streams[s]? = some x'' ∧ x''.q = [] ∧ x''.waiting = false ∧ x''.owner = some p) := by
+  have ginv := ginv_reachable ns np st hr
+  have inv := ginv.str s x hx
+  have hq := (inv.wt hw).1
+  have hok := owner_ok x _ p inv ho
+  have hlt : s < st.streams.length := by
+    rcases Nat.lt_or_ge s st.streams.length with h | h
+    · exact h
+    · simp [List.getElem?_eq_none h] at hx
+  refine ⟨setS st s x.timeout, setS (setS st s x.timeout) s
+      (x.timeout.get { off := 0, seq := x.commit, timeout := true } []), ?_, rfl, ?_, ?_, ?_⟩
+  · simp [step?, hx, hp, hw, hq, hac]
+  · simp [step?, setS, hlt, S1.timeout, signalOwner, hw, hp, ho, hok.1, hok.2]
+  · simp [setS, ginv.np]
+  · refine ⟨x.timeout.get { off := 0, seq := x.commit, timeout := true } [], by simp [setS, hlt], ?_, ?_, ?_⟩ <;>
+      simp [S1.get, S1.timeout, signalOwner, hw, ho]
+
+/-- non-vacuity: put-during-detach; the stream is re-charged by tryDetach and a sleeping
+    processor is signalled -/
+def demo : List Op :=
+  [.park 1, .put 0 10 1, .charge 0, .pop 1 0, .attach 1 0, .get 1 0 10 1 false, .leave 1 0,
+   .put 0 20 2, .commit 0 1, .detach 0, .charge 0]
+
+example : ∃ st, TS.run step? (init 1 2) demo = some st ∧ st.charged = [0] ∧
+    (st.streams[0]?.map (·.q.length)) = some 1 := ⟨_, rfl, by decide⟩
+
+example : ∃ st x, TS.run step? (init 1 1)
+      [.put 0 10 1, .charge 0, .pop 0 0, .attach 0 0, .get 0 0 10 1 false, .commit 0 1, .bwait 0 0] = some st
+    ∧ st.streams[0]? = some x ∧ x.waiting = true ∧ x.pend = .none ∧ x.away = x.commit ∧ x.owner = some 0 :=
+  ⟨_, _, rfl, rfl, by decide⟩
+
+end streams
 
 end FileD.PropsC04
